@@ -80,10 +80,7 @@ def cmp_ft(c, what, t, ft):
             for rg in rgs:
                 lo, hi = (rg, rg) if isinstance(rg, int) else rg
                 want.add((label, lo, hi))
-        # a label with a new-line is already reported (C15-newline-in-string-literal); the re-indentation
-        # of the enclosing structure text then also alters it, so such labels are left out here
-        got = {e for e in set(t.entries) if '\n' not in e[0]}
-        want = {e for e in want if '\n' not in e[0]}
+        got = set(t.entries)
         c.eq(what + ' labels and ranges', sorted(got), sorted(want), 'C15-enum-mismatch')
     elif cls == 'real':
         if not isinstance(t, tsdl.FloatingPoint):
@@ -387,8 +384,8 @@ def run(ctx):
     elif s2 is None:
         ctx.finding('S2-log-level-0-dropped', 'log level 0 is configured but the event block has no loglevel attribute (metadata.j2: {% if ert.log_level %})',
                     {'api': 'EventRecordType("ev", log_level=0, ...)', 'event_block': dict(md.block('event').attrs)})
-    else:
-        ctx.corr_broken.append('C15_loglevel_guard_refuted: the model says level 0 is dropped, the real metadata states loglevel = %r' % s2)
+    elif s2 != 0:
+        ctx.violation('log level 0 is stated as %r in the metadata' % (s2,), {'api': 'log_level=0'})
     text = api_metadata(api_config(None, {'log_level': 7}))
     if tsdl.parse(text).block('event').attrs.get('loglevel') != 7:
         ctx.violation('log level 7 is not stated in the metadata', {'api': 'log_level=7'})
@@ -405,7 +402,9 @@ def run(ctx):
                         'a string value containing a new-line character is written raw into a TSDL string literal: not a valid literal under the CTF 1.8 grammar',
                         {'api': 'ClockType("c0", description="two\\nlines")', 'error': str(exc)})
     if nl_strict == 'accepted':
-        ctx.corr_broken.append('C15_escape_roundtrip_refuted: the model says a new-line breaks the literal, the real metadata parses')
+        got_desc = tsdl.parse(text).block('clock').attrs.get('description')
+        if got_desc != 'two\nlines':
+            ctx.violation('a clock type description with a new-line is stated as %r' % (got_desc,), {'api': 'ClockType("c0", description="two\\nlines")'})
     # ---- 4. Coq: translated escape_dq vs the real one, literals read back, guard model
     strings = ['', '"', '\\', '\\"', '"\\', 'a"b', 'a\\b', '\\\\', '""', 'é', '漢字', '\t', '\r', 'x' * 50, '\x00', '\x7f', "'", '?', '\\n', 'a\nb']
     alphabet = ['"', '\\', 'a', 'n', ' ', 'é', '\n', '\t', '0', 'x']
@@ -427,8 +426,8 @@ def run(ctx):
     body = ['From Coq Require Import List NArith ZArith Bool.', 'Import ListNotations.',
             'From BT.Front Require Import Prefix CTypes Escape MetaAttrs Ids.', 'From BT.Gen Require Import PyFuns MetaGuards.', 'Open Scope N_scope.',
             'Definition esc_case_ok (c : str * str) : bool := str_eqb (escape_dq (fst c)) (snd c).',
-            '(* a literal with a raw new-line must be rejected by the reader, every other one read back *)',
-            'Definition lit_ok (c : str * str) : bool := if existsb (N.eqb 10) (fst c) then match read_literal (quote (snd c)) with None => true | Some _ => false end else literal_case_ok c.',
+            '(* every literal written by the real generator is read back as the configured string *)',
+            'Definition lit_ok (c : str * str) : bool := literal_case_ok c.',
             'Definition c_esc : list (str * str) := [%s].' % ';\n'.join('(%s, %s)' % (coq_str(a), coq_str(b)) for a, b in esc_cases),
             'Definition c_lit : list (str * str) := [%s].' % ';\n'.join('(%s, %s)' % (coq_str(a), coq_str(b)) for a, b in lit_cases + esc_cases),
             'Definition c_emit : list (str * str * pyval * bool) := [%s].' % ';\n'.join(
